@@ -145,6 +145,16 @@ func main() {
 	if os.Getenv("VERIF_DEADLINE") == "" {
 		props.SetSubDeadline(deadline)
 	}
+	if only := os.Getenv("VERIF_ONLY"); only != "" {
+		// debugging aid: restrict the check to the scenarios whose name contains the substring
+		var keep []*engine.Scenario
+		for _, sc := range chk.Scenarios {
+			if strings.Contains(sc.Name, only) {
+				keep = append(keep, sc)
+			}
+		}
+		chk.Scenarios = keep
+	}
 	total := &engine.Report{Exhaustive: true, Shallow: true}
 	engine.HangHook = func(sc *engine.Scenario, cfg drv.Config, prelude, hist []model.Op) {
 		total.Exhaustive = false
